@@ -97,12 +97,12 @@ def report(prop, args, seed, t0, results, cmod, bounded):
             (undecided if kind == "unsupported" else errors).append((r["instance"], text))
         trusted |= set(r["trusted"])
         u_ob = u_dis = 0
+        cover_seen = {}
         for ob in r["obligations"]:
             k = ob["kind"]
             if k == "cover":
                 covers += 1
-                if ob["status"] == "vacuous":
-                    vacuous.append(ob["name"])
+                cover_seen.setdefault(ob["name"], set()).add(ob["status"])
                 continue
             if k == "canary":
                 canaries += 1
@@ -122,6 +122,10 @@ def report(prop, args, seed, t0, results, cmod, bounded):
                 undecided.append((ob["name"], ob.get("detail", "solver unknown")))
             else:
                 failed.append((r, ob))
+        # a cover point must be reachable on at least one explored path (paths found infeasible later are fine)
+        for cname, sts in cover_seen.items():
+            if "covered" not in sts and "cover-unknown" not in sts:
+                vacuous.append(cname)
         per_unit.append({"unit": r["instance"], "paths": r["paths"], "obligations": u_ob, "discharged": u_dis,
                          "wall_s": r["wall_s"]})
     # known findings: a failed obligation listed in known_findings.json (by obligation-name prefix) is reported as
@@ -171,7 +175,7 @@ def report(prop, args, seed, t0, results, cmod, bounded):
              "known_findings_hit": sorted(printed), "bounded": bounded}
     _write_evidence(prop, args.tier, seed, t0, results, cmod, n_ob=n_ob, n_dis=n_dis, samples=samples,
                     trusted=trusted, extra=extra, violations=len(lines))
-    for ln in lines:
+    for ln in dict.fromkeys(lines):
         print(ln)
     for a, b in undecided[:10]:
         print(f"UNDECIDED property={prop} reason={a}: {b}")
@@ -210,7 +214,8 @@ def _slug(s):
 
 def _write_replay(prop, r, ob, cmod):
     """replay the verifier's counterexample on the real code where the contract module knows how"""
-    rel = os.path.join("replays", prop, _slug(ob["name"]) + "_" + ob.get("path", "") [:24] + ".json")
+    base = _slug(ob["name"].split("/", 1)[-1] if ob["name"].startswith(r["instance"]) else ob["name"])
+    rel = os.path.join("replays", prop, _slug(r["instance"])[:70] + "__" + base[-80:] + "_" + ob.get("path", "")[:24] + ".json")
     doc = {"property": prop, "obligation": ob["name"], "unit": r["instance"], "case": r["case"],
            "status": ob["status"], "backend": ob["backend"], "detail": ob.get("detail", ""),
            "witness": ob.get("witness"), "path": ob.get("path"),
